@@ -206,8 +206,9 @@ def check(run):
                 "IndexStoreTrace.tla; non-trivial = accepted trace with >=2 commits")
     ixcommon.model_check(run, "IndexStoreMC_small.cfg" if quick else "IndexStoreMC.cfg", "IndexStoreMC")
     items = []
-    shapes = SHAPES if not quick else [SHAPES[run.seed % len(SHAPES)], "default", "many-small-segments", "optimize",
-                                       "tenth-generation"]
+    # (quick: every shape too - one of them, chosen by the seed, at every boundary, the others at a sample that
+    # always has the last boundaries, where the commit protocol runs)
+    shapes = SHAPES if not quick else [SHAPES[run.seed % len(SHAPES)]] + SHAPES
     shapes = list(dict.fromkeys(shapes))
     points = 0
     for shape in shapes:
@@ -225,8 +226,8 @@ def check(run):
             # dying just before / just after every non-write storage operation
             edge = sorted(set(bounds + [b + 1 for b in bounds if b + 1 <= nops]))
             if quick:
-                pts = sorted(set(rng.sample(range(1, nops + 1), min(nops, 6)) + [1, nops] +
-                                 (edge if shape == shapes[0] else rng.sample(edge, min(len(edge), 10)) + edge[-14:])))
+                pts = sorted(set(rng.sample(range(1, nops + 1), min(nops, 4)) + [1, nops] +
+                                 (edge if shape == shapes[0] else rng.sample(edge, min(len(edge), 6)) + edge[-14:])))
             else:
                 pts = list(range(1, nops + 1)) if nops <= 400 else \
                     sorted(set(edge + rng.sample(range(1, nops + 1), 250)))
